@@ -151,6 +151,7 @@ let dispatch cmd args =
   | ("gtcanon" | "utcanon" | "gtcanonfast"), [h; lg] ->
       let f = (match cmd with "gtcanon" -> gt_canon | "utcanon" -> ut_canon | _ -> gt_canon_fast) in
       Some (match f (bytes_of_hex h) (cz_of_string lg) with Some bs -> hex_of_bytes bs | None -> "FAIL")
+  | "utder", [h; lg] -> Some (hex_of_bytes (ut_der (bytes_of_hex h) (cz_of_string lg)))
   | ("gtfraccmp" | "gtfraccmpfix"), [av; ad; bv; bd] ->
       let f = (if cmd = "gtfraccmp" then frac_cmp_c else frac_cmp_fix) in
       Some (match f (cz_of_string av) (cz_of_string ad) (cz_of_string bv) (cz_of_string bd) with Lt -> "-1" | Eq -> "0" | Gt -> "1")
